@@ -139,6 +139,9 @@ def lost_only_expired(gwy, first: dict[str, str], second: dict[str, str]) -> boo
 
 
 async def fresh_gateway(loop, rig: Rig, schema: dict[str, Any], pkts: dict[str, str], cfg: dict[str, Any]):
+    import copy
+
+    lists = copy.deepcopy({k: v for k, v in rig.lists.items() if k != "mode" and v})
     """The restart path: a new Gateway configured with the saved schema, started with the cache."""
     from ramses_rf import Gateway
 
@@ -146,12 +149,12 @@ async def fresh_gateway(loop, rig: Rig, schema: dict[str, Any], pkts: dict[str, 
         import io
 
         fh = io.TextIOWrapper(io.BytesIO(b""), encoding="utf-8")
-        gwy = Gateway(None, input_file=fh, config=dict(cfg), **schema)
+        gwy = Gateway(None, input_file=fh, config=dict(cfg), **lists, **schema)
         await asyncio.wait_for(gwy.start(cached_packets=dict(pkts)), timeout=600)
     else:
         assert rig.air is not None
         air_b = airmod.Air(loop)  # its own air: the original must not overhear the fresh stick's signature
-        gwy = await harness.start_port_gateway(loop, air_b, "18:006403", config=dict(cfg), start_kwargs={"cached_packets": dict(pkts)}, **schema)
+        gwy = await harness.start_port_gateway(loop, air_b, GWY_ID, config=dict(cfg), start_kwargs={"cached_packets": dict(pkts)}, **lists, **schema)
     await vloop.drain(loop, 10)
     return gwy
 
@@ -247,9 +250,29 @@ async def check_snapshot(loop, ctx, rig: Rig, include_expired: bool, meta: dict[
         await stop(gwy_b, rig.stack)
 
 
-async def feed_double(loop, rig: Rig, f1: str, f2: str) -> None:
+def gen_lists(rng, lines: list[tuple[str, str]], eavesdrop: bool) -> tuple[dict[str, Any], dict[str, Any]]:
+    """Gateway configuration: device lists as applications really have them."""
+    ids = sorted({a for _, f in lines for a in f[11:40].split(" ") if a[:2].isdigit() and a[:2] not in ("18", "63")})
+    mode = rng.choice(("none", "none", "partial+hgi", "full+hgi+enforced", "partial", "block"))
+    cfg: dict[str, Any] = {"disable_discovery": True, "enable_eavesdrop": eavesdrop}
+    known: dict[str, Any] = {}
+    block: dict[str, Any] = {}
+    if mode in ("partial+hgi", "partial"):
+        known = {i: {} for i in ids if rng.random() < 0.5}
+    elif mode == "full+hgi+enforced":
+        known = {i: {} for i in ids}
+        cfg["enforce_known_list"] = True
+    elif mode == "block" and ids:
+        block = {rng.choice(ids): {}}
+    if "hgi" in mode:
+        known[GWY_ID] = {"class": "HGI"}
+    return cfg, {"mode": mode, "known_list": known, "block_list": block}
+
+
+async def feed_double(loop, rig: Rig, f1: str, f2: str, dtm: str = "") -> None:
     """Two frames in one serial read: one read() call returns both lines."""
     rig.trail += [f1, f2]
+    await rig.wait_gap(dtm)
     rig.gwy._vrf_port.stage((f1 + "\r\n" + f2 + "\r\n").encode("latin-1"))
     await asyncio.sleep(0.02)
     await vloop.drain(loop, 6)
@@ -257,10 +280,11 @@ async def feed_double(loop, rig: Rig, f1: str, f2: str) -> None:
 
 async def run_history(loop: vloop.VirtualLoop, ctx, h: hist.History, stack: str, eavesdrop: bool, trial: int) -> None:
     rng = ctx.rng
-    rig = Rig(loop, ctx, stack, eavesdrop)
-    await rig.start()
-    cfg = {"disable_discovery": True, "enable_eavesdrop": eavesdrop}
     lines = h.lines
+    cfg, lists = gen_lists(rng, lines, eavesdrop)
+    rig = Rig(loop, ctx, stack, eavesdrop, cfg=cfg, lists=lists)
+    await rig.start()
+    ctx.count(f"lists.{lists['mode']}")
     n_snaps = rng.choice((0, 1)) if ctx.quick else rng.choice((1, 2, 3))
     at = set(rng.sample(range(len(lines)), min(n_snaps, len(lines)))) | {len(lines) - 1}
     i = 0
@@ -269,7 +293,7 @@ async def run_history(loop: vloop.VirtualLoop, ctx, h: hist.History, stack: str,
         dtm, frame = lines[i]
         if stack == "port" and i + 1 < len(lines) and rng.random() < 0.2:
             doubles.append(i)
-            await feed_double(loop, rig, frame, lines[i + 1][1])
+            await feed_double(loop, rig, frame, lines[i + 1][1], lines[i + 1][0])
             ctx.count("port.double_reads")
             step = 2
         else:
@@ -277,7 +301,7 @@ async def run_history(loop: vloop.VirtualLoop, ctx, h: hist.History, stack: str,
             step = 1
         if any(j in at for j in range(i, i + step)):
             include_expired = rng.random() < 0.5
-            meta = dict(h.meta, prefix=i + step, of=len(lines), eavesdrop=eavesdrop, stack=stack, include_expired=include_expired, double_reads_at=list(doubles), packets=[f"{d} {f}" for d, f in lines[: i + step]])
+            meta = dict(h.meta, lists=lists, prefix=i + step, of=len(lines), eavesdrop=eavesdrop, stack=stack, include_expired=include_expired, double_reads_at=list(doubles), packets=[f"{d} {f}" for d, f in lines[: i + step]])
             await check_snapshot(loop, ctx, rig, include_expired, meta, cfg)
             ctx.seen(f"{h.sig()}|{stack}|{int(eavesdrop)}|{int(include_expired)}")
         i += step
@@ -327,18 +351,21 @@ def replay(data: dict[str, Any]) -> int:
 
         async def go(loop, lines=lines, meta=meta, ctx=ctx):
             with clocks_patched(entity_dt=(meta["stack"] == "port")):
-                rig = Rig(loop, ctx, meta["stack"], meta["eavesdrop"])
+                lists = meta.get("lists") or {"mode": "none", "known_list": {}, "block_list": {}}
+                cfg = {"disable_discovery": True, "enable_eavesdrop": meta["eavesdrop"]}
+                if lists["mode"] == "full+hgi+enforced":
+                    cfg["enforce_known_list"] = True
+                rig = Rig(loop, ctx, meta["stack"], meta["eavesdrop"], cfg=cfg, lists=lists)
                 await rig.start()
                 doubles = set(meta.get("double_reads_at", ()))
                 i = 0
                 while i < len(lines):
                     if i in doubles and i + 1 < len(lines):
-                        await feed_double(loop, rig, lines[i][1], lines[i + 1][1])
+                        await feed_double(loop, rig, lines[i][1], lines[i + 1][1], lines[i + 1][0])
                         i += 2
                     else:
                         await rig.feed(*lines[i])
                         i += 1
-                cfg = {"disable_discovery": True, "enable_eavesdrop": meta["eavesdrop"]}
                 await check_snapshot(loop, ctx, rig, meta.get("include_expired", False), {k: v for k, v in meta.items() if k != "packets"}, cfg)
                 await rig.stop()
 
